@@ -56,9 +56,9 @@ def run(chk):
     # fresh processes: evy run / evy fmt twice each, byte-identical stdout, stderr, status
     common.build_evy()
     tmp = common.scratch("c08cli")
-    sel = list(cases)
+    sel = [c for c in cases if c["class"] != "run-state"]
     rnd.shuffle(sel)
-    sel = sel[: 40 if chk.tier == "quick" else 300]
+    sel = [c for c in cases if c["class"] == "run-state"] + sel[: 40 if chk.tier == "quick" else 300]
     nproc = 0
     for i, c in enumerate(sel):
         f = os.path.join(tmp, "p%d.evy" % i)
@@ -78,7 +78,7 @@ def run(chk):
     chk.rule = ("GoMapFold.tla: all enumeration orders of all instances (<= 4 entries) of the folds the implementation performs "
                 "over Go maps; FamDeterminism: map literals over 8 value kinds^3 (variables, literals, empties, different types), "
                 "map literals with side effects, 2-5 unused variables per scope kind, font maps with several bad properties, programs "
-                "with many errors / handlers; each parsed, formatted and run %d times in one process and 3 times in fresh processes; "
+                "with many errors / handlers, programs that read the run state first (err, errmsg, rand, rand1, test counts) and change it last; each parsed, formatted and run %d times in one process and 3 times in fresh processes; "
                 "non-trivial = distinct program" % reps)
     chk.exhaustive = False
     chk.assumptions += ["Go map order cannot be scheduled: an order-dependent result escapes %d repetitions with probability <= 2^-%d" % (reps, reps - 1),
